@@ -420,6 +420,43 @@ pub fn run(ctx: &Ctx) -> Report {
                 }
             }
         }
+        // positions at the top of the 64-bit range (the zero-extended reader accepts every position and
+        // must report it exactly; the others must refuse): every sequence of length <= 3 over a small alphabet
+        {
+            let far = [(1u64 << 63) - 1, 1 << 63, (1 << 63) + 5, u64::MAX - 16];
+            let mut al: Vec<Op> = vec![Op::Read, Op::Pos, Op::SetPos(0), Op::SetPos(len as u64)];
+            for f in far {
+                al.push(Op::SetPos(f));
+            }
+            if !matches!(kind, Kind::ReaderZext | Kind::ReaderStrict) {
+                al.push(Op::Write(0));
+                al.push(Op::Len);
+            }
+            let dmax = if ctx.tier == Tier::Tiny { 2 } else { 3 };
+            for d in 1..=dmax {
+                let mut idx = vec![0usize; d];
+                'far: loop {
+                    let seq: Vec<Op> = idx.iter().map(|i| al[*i]).collect();
+                    if seq.iter().any(|o| matches!(o, Op::SetPos(p) if *p >= (1 << 62))) {
+                        check_case(&Case { kind, wbits, storage, arr: arr.clone(), seq }, rep);
+                        count += 1;
+                        rep.count("sequences_with_positions_beyond_2^62", 1);
+                    }
+                    let mut k = 0;
+                    loop {
+                        idx[k] += 1;
+                        if idx[k] < al.len() {
+                            break;
+                        }
+                        idx[k] = 0;
+                        k += 1;
+                        if k == d {
+                            break 'far;
+                        }
+                    }
+                }
+            }
+        }
         rep.cover(&format!("sequences/{}", kind.name()), crate::report::hash_of(&(wbits, storage, len, count)));
         rep.count("sequences_enumerated", count);
         rep.case(&(kind, wbits, storage, len, depth));
@@ -441,7 +478,13 @@ pub fn run(ctx: &Ctx) -> Report {
                             Op::Flush
                         }
                     }
-                    _ => Op::SetPos(if rng.chance(1, 20) { (1 << 32) + rng.below(5) } else { rng.below(l as u64 + 4) }),
+                    _ => Op::SetPos(if rng.chance(1, 20) {
+                        (1 << 32) + rng.below(5)
+                    } else if rng.chance(1, 25) {
+                        *rng.pick(&[(1u64 << 63) - 1, 1 << 63, (1 << 63) + 77, u64::MAX - 400])
+                    } else {
+                        rng.below(l as u64 + 4)
+                    }),
                 })
                 .collect();
             let c = Case { kind, wbits, storage, arr: a, seq };
